@@ -48,6 +48,92 @@ Proof.
   destruct H5 as [E|L]; [rewrite E; destruct H2; [left; auto | right; auto]|right; lia].
 Qed.
 
+(* ---------- version vectors ---------- *)
+
+(* every value the vector records for this gateway's own source is older than [c] *)
+Definition hlv_local_lt (v : vvd) (c : N) : Prop :=
+  (v_src v = local_src -> v_ver v < c) /\ alist_local_lt (v_mv v) c = true /\ alist_local_lt (v_pv v) c = true.
+
+Lemma alist_local_lt_mono l c c' : c <= c' -> alist_local_lt l c = true -> alist_local_lt l c' = true.
+Proof.
+  intros L. unfold alist_local_lt. rewrite !forallb_forall. intros H p Hp. specialize (H p Hp).
+  destruct (fst p =? local_src); cbn in *; auto. apply N.ltb_lt in H. apply N.ltb_lt. lia.
+Qed.
+
+Lemma hlv_local_lt_mono v c c' : c <= c' -> hlv_local_lt v c -> hlv_local_lt v c'.
+Proof.
+  intros L (A & B & C). split; [intros E; specialize (A E); lia|].
+  split; eapply alist_local_lt_mono; eauto.
+Qed.
+
+Lemma alist_local_lt_get l c x : alist_local_lt l c = true -> aget l local_src = Some x -> x < c.
+Proof.
+  induction l as [|[a y] t IH]; cbn; [discriminate|]. intros H G.
+  apply andb_true_iff in H. destruct H as [H1 H2]. cbn in H1.
+  destruct (a =? local_src) eqn:E; cbn in H1.
+  - inversion G; subst. apply N.ltb_lt; auto.
+  - auto.
+Qed.
+
+Lemma hlv_local_lt_get v c x : hlv_local_lt v c -> hlv_get v local_src = Some x -> x < c.
+Proof.
+  intros (A & B & C) G. unfold hlv_get in G.
+  destruct (local_src =? v_src v) eqn:E.
+  - inversion G; subst. apply A. apply N.eqb_eq in E. auto.
+  - destruct (aget (v_mv v) local_src) eqn:M.
+    + inversion G; subst. exact (alist_local_lt_get _ _ _ B M).
+    + exact (alist_local_lt_get _ _ _ C G).
+Qed.
+
+Lemma alist_local_lt_adel l c k : alist_local_lt l c = true -> alist_local_lt (adel l k) c = true.
+Proof.
+  unfold alist_local_lt, adel. rewrite !forallb_forall. intros H p Hp. apply filter_In in Hp. apply H. tauto.
+Qed.
+
+Lemma alist_local_lt_aset l c k x : alist_local_lt l c = true -> (k = local_src -> x < c) ->
+  alist_local_lt (aset l k x) c = true.
+Proof.
+  intros H Hx. pose proof (alist_local_lt_adel _ _ k H) as H'. unfold aset, alist_local_lt in *.
+  cbn [forallb fst snd]. rewrite H', andb_true_r.
+  destruct (k =? local_src) eqn:E; cbn; auto. apply N.ltb_lt. apply Hx. apply N.eqb_eq; auto.
+Qed.
+
+Lemma hlv_invalidate_mv_lt v c : hlv_local_lt v c -> alist_local_lt (hlv_invalidate_mv v) c = true.
+Proof.
+  intros (_ & B & C). unfold hlv_invalidate_mv. revert B.
+  induction (v_mv v) as [|p t IH]; intros B; cbn [fold_right]; auto.
+  cbn in B. apply andb_true_iff in B. destruct B as [B1 B2].
+  destruct (fst p =? v_src v); auto.
+  apply alist_local_lt_aset; auto. intros E. rewrite E in B1. cbn in B1. apply N.ltb_lt; auto.
+Qed.
+
+(* adding a version of the own source that is not older than [c0 <= c'] keeps the bound at any later [c'] *)
+Lemma hlv_add_local_lt v ver c c' v' : hlv_local_lt v c -> ver < c' -> c <= c' ->
+  hlv_add v local_src ver = Some v' -> hlv_local_lt v' c'.
+Proof.
+  intros H Lv Lc E. pose proof (hlv_invalidate_mv_lt v c H) as P.
+  apply (alist_local_lt_mono _ _ _ Lc) in P. unfold hlv_add in E.
+  destruct (match hlv_get v local_src with Some x => ver <? x | None => false end); [discriminate|].
+  destruct (local_src =? v_src v) eqn:S; inversion E; subst v'; clear E;
+    (split; [intros _; exact Lv|split; [reflexivity|]]).
+  - exact P.
+  - change (alist_local_lt (adel (aset (hlv_invalidate_mv v) (v_src v) (v_ver v)) local_src) c' = true).
+    apply alist_local_lt_adel. apply alist_local_lt_aset; auto.
+    intros X. apply N.eqb_neq in S. congruence.
+Qed.
+
+Lemma hlv_add_ok v ver c : hlv_local_lt v c -> c <= ver -> exists v', hlv_add v local_src ver = Some v'.
+Proof.
+  intros H L. unfold hlv_add.
+  destruct (hlv_get v local_src) as [x|] eqn:G.
+  - pose proof (hlv_local_lt_get _ _ _ H G). assert (X : (ver <? x) = false) by (apply N.ltb_ge; lia). rewrite X.
+    destruct (local_src =? v_src v); eauto.
+  - destruct (local_src =? v_src v); eauto.
+Qed.
+
+Lemma set_cvcas_local_lt v c x : hlv_local_lt v c -> hlv_local_lt (set_cvcas x v) c.
+Proof. intros H; exact H. Qed.
+
 Section Inv.
 Variable crc : N -> N.
 Variable delcrc : N.
@@ -75,10 +161,11 @@ Record DocInv (c : N) (d : bdoc) : Prop := {
   di_nosync : d_sync d = None -> d_vv d = None /\ d_mou d = None;
   di_sync : forall sy, d_sync d = Some sy ->
       s_cas sy <= d_cas d /\
-      (exists v, d_vv d = Some v /\ v_ver v = s_cv sy) /\
+      (exists v, d_vv d = Some v /\ v_ver v = s_cv sy /\ v_src v = s_cvsrc sy) /\
       chain (s_hist sy) /\
       (exists r t, s_hist sy = r :: t /\ s_crc sy = rev_crc r) /\
-      (s_cas sy = d_cas d -> body_crc crc delcrc d = s_crc sy)
+      (s_cas sy = d_cas d -> body_crc crc delcrc d = s_crc sy);
+  di_hlv : forall v, d_vv d = Some v -> hlv_local_lt v (d_cas d)
 }.
 
 Definition Snap (s : state) (e : bdoc) : Prop := DocInv (clk s) e /\ older e (doc s).
@@ -124,8 +211,8 @@ Qed.
 
 Lemma cv_ok_inv c d sy : DocInv c d -> d_sync d = Some sy -> cv_ok sy (d_vv d) = true.
 Proof.
-  intros D E. destruct (di_sync _ _ D _ E) as (_ & (v & Ev & Hv) & _).
-  unfold cv_ok. rewrite Ev. apply N.eqb_eq; auto.
+  intros D E. destruct (di_sync _ _ D _ E) as (_ & (v & Ev & Hv & Hs) & _).
+  unfold cv_ok. rewrite Ev, Hv, Hs, !N.eqb_refl. reflexivity.
 Qed.
 
 Lemma own_spec c d sy : DocInv c d -> d_sync d = Some sy ->
